@@ -12,7 +12,7 @@ LEVEL = 'model_checking'
 RULE = ('every ordered pair (t1,t2) of the term universe (quick: all terms of depth <=1 over variables X,Y,Z, '
         'atoms a,b,[], Python constants 1, 1000003, \'str\' (passed as equal but distinct objects), functors f/1 f/2 g/1 ./2; thorough: all terms of depth <=2 with <=5 symbols) '
         'x every stack of earlier, still suspended unifications from the menu (quick: 6 stacks; thorough: every '
-        'stack of <=2 equations out of 8 that is consistent and acyclic). For each: number of yields, canonical '
+        'stack of <=2 equations out of 8 that is consistent and acyclic) x every point of the stack at which the unify generator is CREATED (it is always advanced under the whole stack). For each: number of yields, canonical '
         'observation of (X,Y,Z,t1,t2) at the yield vs Robinson unification (mgu up to renaming incl. aliasing), both '
         'terms observe equal, bindings restored after exhaustion and after close(). states = distinct '
         '(stack, outcome) observations; transitions = next()/close() calls on real unify generators; non-trivial = '
@@ -85,8 +85,14 @@ def plan(tier):
     return [(tier, k, nsh) for k in range(nsh)]
 
 
-def check_pair(stack, t1, t2):
-    """-> ('skip', reason) | ('ok', outcome, steps, nontrivial) | ('violation', sig, detail)"""
+def check_pair(stack, t1, t2, create_at=None):
+    """-> ('skip', reason) | ('ok', outcome, steps, nontrivial) | ('violation', sig, detail)
+    create_at: the unify generator for (t1,t2) is CREATED after the first create_at equations of
+    the stack are active, the rest of the stack is established afterwards, and only then is the
+    generator advanced - the unification starts under the whole stack (a generator that has not
+    been advanced has not started), so the expected outcome is the same"""
+    if create_at is None:
+        create_at = len(stack)
     env0 = {}
     for l, r in stack:
         env0 = ref_unify(l, r, env0)
@@ -99,7 +105,12 @@ def check_pair(stack, t1, t2):
     vx, vy, vz = (impl.to_engine(yp, v, vm) for v in (X, Y, Z))
     held = []
     steps = 0
-    for l, r in stack:
+    early = None
+    e1 = e2 = None
+    for si, (l, r) in enumerate(stack):
+        if si == create_at:
+            e1, e2 = impl.to_engine(yp, t1, vm), impl.to_engine(yp, t2, vm)
+            early = iter(impl.engine.unify(e1, e2))
         g = iter(impl.engine.unify(impl.to_engine(yp, l, vm), impl.to_engine(yp, r, vm)))
         try:
             next(g)
@@ -110,16 +121,20 @@ def check_pair(stack, t1, t2):
     pre = impl.observe([vx, vy, vz])
     if pre != canon([X, Y, Z], env0):
         return ('violation', 'stack-observation', 'after the stack: %s, expected %s' % (show_obs(pre), show_obs(canon([X, Y, Z], env0))))
-    e1, e2 = impl.to_engine(yp, t1, vm), impl.to_engine(yp, t2, vm)
+    if early is None:
+        e1, e2 = impl.to_engine(yp, t1, vm), impl.to_engine(yp, t2, vm)
     exp = None if env1 is None else canon([X, Y, Z, t1, t2], env1)
 
     def fail(sig, msg):
-        return ('violation', sig, 'stack %s; unify(%s, %s): %s' % (
+        if early is not None:
+            sig = 'created-early:' + sig
+        return ('violation', sig, 'stack %s; unify(%s, %s)%s: %s' % (
             ', '.join('%s = %s' % (show_term(l), show_term(r)) for l, r in stack) or '(empty)',
-            show_term(t1), show_term(t2), msg))
+            show_term(t1), show_term(t2),
+            '' if early is None else ' [generator created when only the first %d stack equation(s) were active, advanced under the whole stack]' % create_at, msg))
     # run 1: to exhaustion
     try:
-        g = iter(impl.engine.unify(e1, e2))
+        g = early if early is not None else iter(impl.engine.unify(e1, e2))
         n = 0
         got = None
         for _ in g:
@@ -177,35 +192,35 @@ def run_shard(spec):
     acc = Acc()
     U = universe(tier)
     S = stacks(tier)
-    idx = 0
     for si, st in enumerate(S):
         for i1, t1 in enumerate(U):
             if (si * len(U) + i1) % n != k:
                 continue
             for i2, t2 in enumerate(U):
-                idx = (si, i1, i2)
-                acc.n['evaluations'] += 1
-                r = check_pair(st, t1, t2)
-                if r[0] == 'skip':
-                    acc.skipped[r[1]] += 1
-                    continue
-                acc.n['validated'] += 1
-                if r[0] == 'violation':
-                    case = {'stack': _j(st), 't1': _j(t1), 't2': _j(t2)}
-                    acc.violation(r[1], idx, case, r[2], key='%s|%s|%s' % (si, show_term(t1), show_term(t2)))
-                    continue
-                acc.n['transitions'] += r[2]
-                if r[3]:
-                    acc.n['nontrivial'] += 1
-                acc.outcome((si, r[1]))
-                if r[3] and i1 * 7 + i2 * 13 + si == 300 + k:
-                    acc.sample({'stack': ['%s = %s' % (show_term(l), show_term(r_)) for l, r_ in st],
-                                't1': show_term(t1), 't2': show_term(t2), 'mgu_observation_XYZ_t1_t2': show_obs(r[1])}, limit=1)
+                for create_at in [None] + list(range(len(st))):
+                    idx = (si, i1, i2, -1 if create_at is None else create_at)
+                    acc.n['evaluations'] += 1
+                    r = check_pair(st, t1, t2, create_at)
+                    if r[0] == 'skip':
+                        acc.skipped[r[1]] += 1
+                        continue
+                    acc.n['validated'] += 1
+                    if r[0] == 'violation':
+                        case = {'stack': _j(st), 't1': _j(t1), 't2': _j(t2), 'create_at': create_at}
+                        acc.violation(r[1], idx, case, r[2], key='%s|%s|%s|%s' % (si, show_term(t1), show_term(t2), create_at))
+                        continue
+                    acc.n['transitions'] += r[2]
+                    if r[3]:
+                        acc.n['nontrivial'] += 1
+                    acc.outcome((si, r[1]))
+                    if r[3] and i1 * 7 + i2 * 13 + si == 300 + k:
+                        acc.sample({'stack': ['%s = %s' % (show_term(l), show_term(r_)) for l, r_ in st],
+                                    't1': show_term(t1), 't2': show_term(t2), 'mgu_observation_XYZ_t1_t2': show_obs(r[1])}, limit=1)
     return acc
 
 
 def replay(case):
-    r = check_pair(_t(case['stack']), _t(case['t1']), _t(case['t2']))
+    r = check_pair(_t(case['stack']), _t(case['t1']), _t(case['t2']), case.get('create_at'))
     if r[0] == 'violation':
         return [(r[1], r[2])]
     return []
